@@ -375,7 +375,7 @@ func (fr *frame) mergeRegion(cond *Term, j *ssa.BasicBlock) (ok bool) {
 		merged[k] = acc
 	}
 	for k, phi := range phis {
-		fr.env[phi] = merged[k]
+		fr.set(phi, merged[k])
 	}
 	fr.prev, fr.block = start, j
 	fr.skipPhis = true
